@@ -1425,6 +1425,8 @@ def run(ctx):
         ccases.append({'client_ops': gen_client_x(ctx.rng), 'cfamily': 'tcp' if ep == 'tcp' else 'unix',
                        'ckind': ctx.rng.choice(KINDS), 'pipe': ep == 'pipe'})
     evaluate_clients(ctx, ccases)
+    import c12_accept          # the accept path: the listening socket as a model object (machine `connaccept`)
+    c12_accept.run(ctx)
 
 
 def search(ctx):
@@ -1432,7 +1434,10 @@ def search(ctx):
 
 
 def replay(ctx, case):
-    if 'client_ops' in case:
+    if 'aops' in case:
+        import c12_accept
+        c12_accept.replay(ctx, case)
+    elif 'client_ops' in case:
         evaluate_clients(ctx, [case])
     else:
         evaluate(ctx, [{'ops': case['ops'], 'kind': case.get('kind', 'select'), 'family': case.get('family', 'tcp')}],
